@@ -3,6 +3,6 @@
 export GOFLAGS=-mod=mod GOPROXY=off GOSUMDB=off GOTOOLCHAIN=local
 rc=0
 for m in . cmd/arcaflow-codegen; do
-  (cd /repo/$m && go test -vet=off -count=1 -timeout 25m ./... 2>&1 | grep -v 'no test files') || rc=1
+  (cd ${VERIF_REPO:-/repo}/$m && go test -vet=off -count=1 -timeout 25m ./... 2>&1 | grep -v 'no test files') || rc=1
 done
 exit $rc
